@@ -6,9 +6,11 @@ package main
 
 import (
 	"bytes"
+	"context"
 	"errors"
 	"fmt"
 	"io"
+	"os"
 	"strings"
 	"sync/atomic"
 	"text/template"
@@ -194,15 +196,23 @@ func (z *zeroThenData) Read(p []byte) (int, error) {
 }
 
 type failAfter struct {
-	s string
-	k int
+	s   string
+	k   int
+	err error
 }
 
 var errInjected = errors.New("injected read failure")
 
+// the error values a failing reader may return: anything but a bare io.EOF is a failure
+var readErrors = []error{errInjected, io.ErrUnexpectedEOF, io.ErrClosedPipe, io.ErrNoProgress, io.ErrShortBuffer, os.ErrClosed, os.ErrDeadlineExceeded, context.Canceled,
+	fmt.Errorf("wrapped: %w", io.EOF), &os.PathError{Op: "read", Path: "t", Err: errors.New("input/output error")}}
+
 func (f *failAfter) Read(p []byte) (int, error) {
+	if f.err == nil {
+		f.err = errInjected
+	}
 	if f.k == 0 {
-		return 0, errInjected
+		return 0, f.err
 	}
 	n := len(p)
 	if n > f.k {
@@ -214,7 +224,7 @@ func (f *failAfter) Read(p []byte) (int, error) {
 	copy(p, f.s[:n])
 	f.s, f.k = f.s[n:], f.k-n
 	if f.k == 0 {
-		return n, errInjected // data together with the error
+		return n, f.err // data together with the error
 	}
 	return n, nil
 }
@@ -298,23 +308,29 @@ func init() {
 					}
 					// failure after k bytes, for every k <= len
 					for k := 0; k <= len(text); k++ {
-						atomic.AddInt64(&faultCases, 1)
-						cs := map[string]any{"report": tg.name, "template": text, "via": fmt.Sprintf("ExportWith(reader failing after %d bytes)", k)}
-						rd, err := func() (rd io.Reader, err error) {
-							defer func() {
-								if x := recover(); x != nil {
-									err = fmt.Errorf("panic: %v", x)
-									r.Violate(ev.Violation{Kind: "export-panics", Case: cs, Observed: fmt.Sprint(x), Expected: "an error"})
-								}
+						for ei, rerr := range readErrors {
+							if ei > 0 && ti > 0 {
+								continue // every error value on the first report, the plain one on all
+							}
+							rerr := rerr
+							atomic.AddInt64(&faultCases, 1)
+							cs := map[string]any{"report": tg.name, "template": text, "via": fmt.Sprintf("ExportWith(reader failing after %d bytes with %q)", k, rerr.Error())}
+							rd, err := func() (rd io.Reader, err error) {
+								defer func() {
+									if x := recover(); x != nil {
+										err = fmt.Errorf("panic: %v", x)
+										r.Violate(ev.Violation{Kind: "export-panics", Case: cs, Observed: fmt.Sprint(x), Expected: "an error"})
+									}
+								}()
+								return tg.rep.ExportWith(&failAfter{s: text, k: k, err: rerr})
 							}()
-							return tg.rep.ExportWith(&failAfter{text, k})
-						}()
-						if err == nil || !errors.Is(err, cvsserr.ErrInvalidTemplate) {
-							r.Violate(ev.Violation{Kind: "read-failure-not-reported", Case: cs, Observed: fmt.Sprintf("err=%v (%s)", err, lib.Class(err)), Expected: "an error matching ErrInvalidTemplate"})
-						}
-						if !isNilReader(rd) {
-							got, _, _ := readAll(rd)
-							r.Violate(ev.Violation{Kind: "partial-output", Case: cs, Observed: fmt.Sprintf("a reader holding %q", got), Expected: "no output"})
+							if err == nil || !errors.Is(err, cvsserr.ErrInvalidTemplate) {
+								r.Violate(ev.Violation{Kind: "read-failure-not-reported", Case: cs, Observed: fmt.Sprintf("err=%v (%s)", err, lib.Class(err)), Expected: "an error matching ErrInvalidTemplate"})
+							}
+							if !isNilReader(rd) {
+								got, _, _ := readAll(rd)
+								r.Violate(ev.Violation{Kind: "partial-output", Case: cs, Observed: fmt.Sprintf("a reader holding %q", got), Expected: "no output"})
+							}
 						}
 					}
 				}
@@ -372,7 +388,7 @@ func init() {
 		r.Sample(map[string]any{"template": "{{with .TemporalReport}}{{.Vector}}{{end}}", "reports": "base/temporal/environmental x en/ja", "via": "ExportWithString"})
 		r.Sample(map[string]any{"template": "{{if .Vector}}{{.Nope}}", "reader": "failing after k bytes for every k <= len"})
 		r.Set("exhaustive", true)
-		r.Set("rule", fmt.Sprintf("every sequence of <= %d atoms over a %d-atom template grammar (literals, field references of all three report levels incl. shadowed ones, unknown field/function, pipelines, if/else/end/with/range as separate atoms so that unbalanced and type-incorrect programs occur, comments, trim markers, bare '{{', define/template) x 3 report levels x 2 languages, compared with Go's text/template parsed and executed afresh on the same report value; every template of <= 2 atoms through 5 reader behaviours and through a reader failing after k bytes for every k <= len; nil reader; nil reports; distinct by template text", maxAtoms, na))
+		r.Set("rule", fmt.Sprintf("every sequence of <= %d atoms over a %d-atom template grammar (literals, field references of all three report levels incl. shadowed ones, unknown field/function, pipelines, if/else/end/with/range as separate atoms so that unbalanced and type-incorrect programs occur, comments, trim markers, bare '{{', define/template) x 3 report levels x 2 languages, compared with Go's text/template parsed and executed afresh on the same report value; every template of <= 2 atoms through 5 reader behaviours and through a reader failing after k bytes for every k <= len with each of 10 error values (io.ErrUnexpectedEOF, a wrapped io.EOF, closed pipe, ...); nil reader; nil reports; distinct by template text", maxAtoms, na))
 		r.Assume("Go's text/template is the reference for 'faithful' (the property's own definition)")
 		if atomic.LoadInt64(&st.okRef) == 0 || atomic.LoadInt64(&st.parseFail) == 0 || atomic.LoadInt64(&st.execFail) == 0 {
 			r.Infra("vacuity guard: the template grammar did not produce all three reference outcomes")
